@@ -18,6 +18,7 @@ check selftest sensitivity [--props ...]
 """
 import concurrent.futures as cf
 import glob
+import threading
 import json
 import os
 import shutil
@@ -103,11 +104,29 @@ def determinism(a, chk):
                 other = [k for g, k in ks if k != k1[0]][0]
                 differing.append({"seed": s, "between": "GOMAXPROCS=1 vs 4/16", "fields": _diff_fields(k1[0], other)})
         verdict_stable = all(len({(k["ok"], k["sig"]) for g, k in results[s]}) == 1 for s in seeds)
+        # stress: the same seed in many simultaneous processes on an oversubscribed machine (a loaded
+        # machine stretches every real system call, which is when a forgotten source of
+        # nondeterminism shows); GOMAXPROCS=1 as in the registered tiers
+        stress = None
+        if a.stress > 0:
+            sseeds = seeds[:3]
+            sjobs = [(s, 1) for s in sseeds for _ in range(a.stress)]
+            sres = {}
+            with cf.ThreadPoolExecutor(max_workers=min(len(sjobs), 3 * (os.cpu_count() or 8))) as ex:
+                for seed, gmp, key in ex.map(one, sjobs):
+                    sres.setdefault(seed, []).append(key)
+            stress = {"seeds": len(sseeds), "processes_per_seed": a.stress,
+                      "distinct_keys_per_seed": [len({json.dumps(k, sort_keys=True) for k in sres[s]}) for s in sseeds]}
+            if any(n != 1 for n in stress["distinct_keys_per_seed"]):
+                stress["differing_fields"] = [_diff_fields(sres[s][0], [k for k in sres[s] if k != sres[s][0]][0])
+                                              for s in sseeds if len({json.dumps(k, sort_keys=True) for k in sres[s]}) > 1][:3]
         report["properties"][prop] = {"seeds": nseeds, "identical_gomaxprocs1": same_1, "identical_all4": same_all,
                                       "verdict_identical_all": verdict_stable, "differing": differing[:12],
-                                      "wall_s": round(time.time() - t0, 1)}
-        print("%s: %d/%d identical at GOMAXPROCS=1 (2 executions), %d/%d identical across GOMAXPROCS 1,1,4,16; verdicts identical: %s"
-              % (prop, same_1, nseeds, same_all, nseeds, verdict_stable), flush=True)
+                                      "stress": stress, "wall_s": round(time.time() - t0, 1)}
+        print("%s: %d/%d identical at GOMAXPROCS=1 (2 executions), %d/%d identical across GOMAXPROCS 1,1,4,16; verdicts identical: %s%s"
+              % (prop, same_1, nseeds, same_all, nseeds, verdict_stable,
+                 "" if not stress else "; stress %d seeds x %d simultaneous processes: distinct keys per seed %s"
+                 % (stress["seeds"], stress["processes_per_seed"], stress["distinct_keys_per_seed"])), flush=True)
         if not verdict_stable:
             bad += 1
     os.makedirs(os.path.join(V, "selftest"), exist_ok=True)
@@ -145,7 +164,14 @@ def sensitivity(a, chk):
     props = a.props.split(",") if a.props else []
     report = {"results": []}
     caught = missed = 0
-    for prop, name, patch in _patches(props):
+    only = set(a.only.split(",")) if getattr(a, "only", "") else None
+    patches = [x for x in _patches(props) if not only or x[1] in only]
+    par = max(1, a.par)
+    jobs_each = max(2, (os.cpu_count() or 16) // par + 2)
+    lock = threading.Lock()
+
+    def one(item):
+        slot, (prop, name, patch) = item
         meta = {}
         mp = os.path.join(os.path.dirname(patch), "meta.json")
         if os.path.exists(mp):
@@ -154,42 +180,54 @@ def sensitivity(a, chk):
             except Exception:
                 meta = {}
         targets = meta.get("checks") or [prop]
+        if os.environ.get("SENS_TARGETS"):  # exploration: which other checks see this change (result file not meaningful)
+            targets = os.environ["SENS_TARGETS"].split(",")
         wt = tempfile.mkdtemp(prefix="kdsim-wt-", dir=os.environ.get("TMPDIR", "/tmp"))
         os.rmdir(wt)
+        bdir = os.path.join(V, "build", "sens-%s-%s" % (prop, name))
         try:
             subprocess.run(["git", "-C", "/repo", "worktree", "add", "-f", "--detach", wt, "HEAD", "-q"], check=True,
                            stdout=subprocess.PIPE, stderr=subprocess.STDOUT)
             ap = subprocess.run(["git", "-C", wt, "apply", patch], stdout=subprocess.PIPE, stderr=subprocess.STDOUT, text=True)
             if ap.returncode != 0:
-                report["results"].append({"property": prop, "mutant": name, "result": "patch does not apply", "detail": ap.stdout[-400:]})
-                print("%s %s: patch does not apply to the current tree" % (prop, name), flush=True)
-                continue
+                with lock:
+                    print("%s %s: patch does not apply to the current tree" % (prop, name), flush=True)
+                return {"property": prop, "mutant": name, "result": "patch does not apply", "detail": ap.stdout[-400:]}
             res = {}
             for t in targets:
                 env = dict(os.environ)
                 env["VERIF_REPO"] = wt
-                env["VERIF_EVIDENCE_DIR"] = os.path.join(V, "build", "selftest-evidence")
+                env["VERIF_BUILD"] = bdir  # own build directory: several mutated trees are checked at a time
+                env["VERIF_EVIDENCE_DIR"] = os.path.join(bdir, "evidence")
                 t0 = time.time()
-                cmd = [os.path.join(V, "check"), t]
+                cmd = [os.path.join(V, "check"), t, "--jobs", str(jobs_each)]
                 if a.runs:
                     cmd += ["--runs", str(a.runs)]
                 p = subprocess.run(cmd, stdout=subprocess.PIPE, stderr=subprocess.STDOUT, text=True, env=env)
                 vio = [l for l in p.stdout.splitlines() if l.startswith("VIOLATION") or l.strip().startswith("sig=")]
                 res[t] = {"exit": p.returncode, "wall_s": round(time.time() - t0, 1), "lines": vio[:4]}
+                if p.returncode == 2:
+                    res[t]["tail"] = p.stdout[-600:]
             hit = any(r["exit"] == 1 for r in res.values())
-            caught += hit
-            missed += (not hit)
-            report["results"].append({"property": prop, "mutant": name, "title": meta.get("title", ""), "caught": hit, "checks": res})
-            print("%s %s: %s  %s" % (prop, name, "CAUGHT" if hit else "missed", {k: v["exit"] for k, v in res.items()}), flush=True)
+            with lock:
+                print("%s %s: %s  %s" % (prop, name, "CAUGHT" if hit else "missed", {k: v["exit"] for k, v in res.items()}), flush=True)
+            return {"property": prop, "mutant": name, "title": meta.get("title", ""), "caught": hit, "checks": res}
         finally:
             subprocess.run(["git", "-C", "/repo", "worktree", "remove", "--force", wt], stdout=subprocess.PIPE, stderr=subprocess.STDOUT)
             shutil.rmtree(wt, ignore_errors=True)
-    # leave /verif/build pointing at the real tree again
-    subprocess.run([os.path.join(V, "bin", "build")], stdout=subprocess.PIPE, stderr=subprocess.STDOUT)
-    subprocess.run([os.path.join(V, "bin", "build"), "race"], stdout=subprocess.PIPE, stderr=subprocess.STDOUT)
+            shutil.rmtree(bdir, ignore_errors=True)
+
+    with cf.ThreadPoolExecutor(max_workers=par) as ex:
+        for r in ex.map(one, list(enumerate(patches))):
+            report["results"].append(r)
+            if "caught" in r:
+                caught += r["caught"]
+                missed += (not r["caught"])
     print("sensitivity: %d caught, %d missed" % (caught, missed))
     os.makedirs(os.path.join(V, "selftest"), exist_ok=True)
     path = os.path.join(V, "selftest", "sensitivity.json")
+    if os.environ.get("SENS_TARGETS"):
+        path = os.path.join(V, "build", "sensitivity-exploration.json")
     if os.path.exists(path):  # keep the record of seeded changes not re-run this time
         try:
             have = {(r["property"], r["mutant"]) for r in report["results"]}
